@@ -328,15 +328,18 @@ def lastOrigin : Option Name → List (List Nat × Name) → Option Name
   | co, [] => co
   | _, d :: ds => lastOrigin (some d.2) ds
 
-/-- each directive names its origin with an identifier token that reads as the name -/
-def OriginsOK (ds : List (List Nat × Name)) : Prop :=
-  ∀ d ∈ ds, identOK d.1 = true ∧ d.1 ≠ [] ∧ fromText d.1 none = .ok d.2
+/-- each directive names its origin with an identifier token that — completed with the origin current at that point
+(commit c444c98) — reads as an absolute name -/
+def OriginsOK : Option Name → List (List Nat × Name) → Prop
+  | _, [] => True
+  | co, d :: ds => identOK d.1 = true ∧ d.1 ≠ [] ∧ (identToken d.1).asName co false none = .ok d.2 ∧ isAbs d.2 = true ∧
+      OriginsOK (some d.2) ds
 
 /-- **any run of `$ORIGIN` directives** in a file whose zone origin is known moves the current origin to the last name
 given and leaves everything else — the zone origin in particular — as it was -/
 theorem readLoop_origin_dirs (ds : List (List Nat × Name)) (rest : List Nat) (r : PState) (z : ZoneMap) (zo : Name)
     (f : Nat) (hzo : r.zoneOrigin = some zo) (htok : r.tok = after 0 false (originsText ds ++ rest))
-    (hok : OriginsOK ds) :
+    (hok : OriginsOK r.currentOrigin ds) :
     readLoop (f + ds.length) r z =
       readLoop f { r with tok := after 0 false rest, currentOrigin := lastOrigin r.currentOrigin ds } z := by
   induction ds generalizing r with
@@ -346,15 +349,15 @@ theorem readLoop_origin_dirs (ds : List (List Nat × Name)) (rest : List Nat) (r
     congr 1
     cases r; simp only at htok; subst htok; rfl
   | cons d ds ih =>
-    obtain ⟨o1, o2, o3⟩ := hok d (by simp)
-    have hstep := lineStep_origin_dir r d.1 d.2 (originsText ds ++ rest) o1 o2 o3
+    obtain ⟨o1, o2, o3, o4, o5⟩ := hok
+    have hstep := lineStep_origin_dir r d.1 d.2 (originsText ds ++ rest) o1 o2 o3 o4
       (by simpa [originsText, List.append_assoc] using htok)
     have e : f + (d :: ds).length = (f + ds.length) + 1 := by simp; omega
     rw [e]
     simp only [readLoop, readStep, bind, Except.bind, hstep, pure, Except.pure]
     rw [ih { r with tok := after 0 false (originsText ds ++ rest), currentOrigin := some d.2,
                     zoneOrigin := originAfter r.zoneOrigin d.2 }
-      (by simp [hzo, originAfter]) rfl (fun x hx => hok x (by simp [hx]))]
+      (by simp [hzo, originAfter]) rfl o5]
     simp only [lastOrigin, hzo, originAfter]
 
 end Model
